@@ -189,7 +189,7 @@ def main():
             if o['cls'] in ('postcondition', 'assertion', 'loop_invariant_step', 'assigns', 'precondition') and len(samples) < 12 and \
                     not any(s['group'] == g['name'] and s['class'] == o['cls'] for s in samples):
                 samples.append({'group': g['name'], 'obligation': o['id'], 'class': o['cls'], 'description': o['desc'][:200], 'status': o['status']})
-        if a.record and not failed and not unknown:
+        if a.record and not unknown and all(('property=%s group=%s obligation=%s' % (prop, g['name'], okey(o))) in known for o in failed):
             os.makedirs(os.path.dirname(ep), exist_ok=True)
             keys = {}
             for o in user_obl:
